@@ -17,6 +17,7 @@ import (
 // Family ledgerobj (C02): Transaction / Header / Block codecs on the real code.
 //
 //	tx <B> <keys>                       TransactionFromRawBytes: "ok <V> hash=<h> raw=<len>" | "err" | "panic"
+//	txm <B> <keys>                      tx with the decoder's allocation measured (no memory reserved from a declared count)
 //	txprop <B> <altsigs> <trail> <keys> property of a valid encoding B: re-encodes to B, hash = dsha256(unsigned bytes),
 //	                                    same hash with another signature section, B++trail decodes with Raw = B,
 //	                                    every examined truncation is refused: "ok hash=<h>"
@@ -354,6 +355,14 @@ func (f *ledgerFam) Exec(r *hx.Run, op []string) string {
 	switch op[0] {
 	case "tx":
 		return f.txOp(r, hx.UnHex(op[1]))
+	case "txm": // tx, with the decoder's allocation measured
+		raw := hx.UnHex(op[1])
+		var out string
+		if n := allocatedBy(func() { out = f.txOp(r, raw) }); n > allocLimit(len(raw)) {
+			r.Viol("C02:decoder-allocates-from-count:Transaction", fmt.Sprintf("TransactionFromRawBytes of the %d-byte input %s allocates %d MB (outcome %s): memory is reserved from a declared count before the elements are read",
+				len(raw), trunc(hx.Hex(raw), 200), n>>20, trunc(out, 20)))
+		}
+		return out
 	case "txprop":
 		return f.txProp(r, hx.UnHex(op[1]), hx.UnHex(op[2]), hx.UnHex(op[3]))
 	case "txbig":
@@ -564,6 +573,19 @@ func (f *ledgerFam) Gen(r *hx.Run) {
 			}
 		}
 	}
+	// a declared count of 2^22 signatures / 65535 signature items with an empty body, allocation measured
+	if !f.sawPanic {
+		for form := 0; form < 4; form++ {
+			if form == 1 {
+				continue
+			}
+			newCase("tx-sigcount-measured")
+			raw := append(append([]byte{}, unsigned...), varuintBytes(1<<22, form)...)
+			r.Do(fmt.Sprintf("txm %s keys=-", hx.Hex(raw)))
+			raw2 := append(append(append([]byte{}, unsigned...), 1), 0xff, 0xff)
+			r.Do(fmt.Sprintf("txm %s keys=-", hx.Hex(raw2)))
+		}
+	}
 	// 2. valid transactions
 	ntx := r.Pick(500, 20000)
 	for i := 0; i < ntx; i++ {
@@ -700,12 +722,15 @@ func (f *ledgerFam) Gen(r *hx.Run) {
 		blk := &types.Block{Header: f.genHeader(r)}
 		ntx := r.Rng.Intn(7)
 		for j := 0; j < ntx; j++ {
-			t, err := decodeTx(serTx(f.genTx(r, 3)))
-			if err != nil {
-				panic(err)
+			traw := serTx(f.genTx(r, 3))
+			t, err := decodeTx(traw)
+			if err != nil { // reported with its input by the tx ops; here the block simply gets one transaction less
+				r.Viol("C02:valid-tx-rejected", fmt.Sprintf("valid transaction %s rejected: %v", trunc(hx.Hex(traw), 300), err))
+				continue
 			}
 			blk.Transactions = append(blk.Transactions, t)
 		}
+		ntx = len(blk.Transactions)
 		blk.RebuildMerkleRoot()
 		raw := blk.ToArray()
 		keys := keyOracle(raw)
